@@ -37,8 +37,9 @@ def _make(ctx, n, nparts, ftype, strand):
     parts = mk_parts(ctx, "f", nparts, n, strand=strand)
     if ftype == "source":
         pass
-    quals = {"label": ["L"], "note": ["x", "y"]}
-    feat = build_feature(st, parts, ftype, quals, fid="fid1")
+    # qualifier values as a parser gives them (lists of strings) and as scripts write them (plain string, number, tuple)
+    quals = QUALS()
+    feat = build_feature(st, parts, ftype, QUALS(), fid="fid1")
     track = ctx.mk.track("q", n)
     ann = {"topology": "circular", "organism": "E. coli", "k": [1, 2]}
     if ctx.P.get("history"):
@@ -58,6 +59,10 @@ def _make(ctx, n, nparts, ftype, strand):
                                    dbxrefs=["db:1"], features=[feat], annotations=ann,
                                    letter_annotations={"phred": track})
     return r, parts, quals, track, ann, rec
+
+
+def QUALS():
+    return {"label": ["L"], "note": ["x", "y"], "plain": "AmpR terminator", "number": 7, "pair": ("a", "b"), "empty": []}
 
 
 def _rotation_amount(ctx, name, n):
